@@ -129,6 +129,19 @@ def case_runner_entry():
         res = xyz.case_runner(f, None, [(1, 7, 2), (2, 8, 3)], verbosity=0)
         if calls != [(1, 7, 2), (2, 8, 3)] or tuple(res) != (172, 283):
             probs.append(f"names from the signature: calls {calls}, results {res!r}")
+        # a second function with the same name but another signature, swept later in the same process
+        def make(order):
+            if order == "ab":
+                def g(a, b):
+                    return ("a", a, "b", b)
+            else:
+                def g(b, a):
+                    return ("a", a, "b", b)
+            return g
+        r1 = xyz.case_runner(make("ab"), None, [(1, 2)], verbosity=0)
+        r2 = xyz.case_runner(make("ba"), None, [(1, 2)], verbosity=0)
+        if tuple(r1) != (("a", 1, "b", 2),) or tuple(r2) != (("a", 2, "b", 1),):
+            probs.append(f"two functions of the same name with signatures (a, b) and (b, a), tuple cases (1, 2): results {r1!r} and {r2!r}")
         # overlap between the case arguments and the sub-grid
         del calls[:]
         try:
